@@ -20,6 +20,9 @@ type pcall struct {
 	Hash int64 `json:"h"`
 	Fail bool  `json:"f,omitempty"`
 	Form int   `json:"m,omitempty"`
+	// class reuse-line: the caller ("owner") that issues this call; an owner keeps ONE line.CallCtx value and re-submits it
+	// with a new Param once its previous AsyncCall has returned
+	Owner int `json:"o,omitempty"`
 }
 
 type act struct {
@@ -33,6 +36,7 @@ type plan struct {
 	Q     int     `json:"q"`
 	Calls []pcall `json:"calls"`
 	Acts  []act   `json:"acts"`
+	Reuse bool    `json:"r,omitempty"`
 }
 
 const (
@@ -76,33 +80,36 @@ func hangTimeout() time.Duration {
 }
 
 type sched struct {
-	p        *plan
-	ex       executor
-	m        *model
-	seq      int64
-	mu       sync.Mutex
-	evlog    []obs
-	results  map[int]*result
-	wake     chan struct{}
-	gates    map[int]chan struct{}
-	gopen    map[int]bool
-	ctxs     map[int]*obsCtx
-	calls    map[int]*pcall
-	exitAt   int64
-	items    []obs
-	evUsed   map[int]bool // index into evlog: consumed by the driver
-	waiting  map[int]bool // accepted caller not yet seen returning
-	gotSeen  map[int]bool
-	spawned  map[int]bool
-	stopped  bool
-	waited   bool
-	hung     bool
-	diverged bool
-	exitGo   bool
-	idx      map[int]int // IndexOf(hash) as the executor reports it
-	idxPan   map[int]bool
-	place    map[string]int // where Stop / cancellation fell (measured on the trace)
-	entered  map[int]bool   // callee entered at least once (under mu)
+	p         *plan
+	ex        executor
+	m         *model
+	seq       int64
+	mu        sync.Mutex
+	evlog     []obs
+	results   map[int]*result
+	wake      chan struct{}
+	gates     map[int]chan struct{}
+	gopen     map[int]bool
+	ctxs      map[int]*obsCtx
+	calls     map[int]*pcall
+	exitAt    int64
+	items     []obs
+	evUsed    map[int]bool // index into evlog: consumed by the driver
+	waiting   map[int]bool // accepted caller not yet seen returning
+	gotSeen   map[int]bool
+	spawned   map[int]bool
+	stopped   bool
+	waited    bool
+	hung      bool
+	diverged  bool
+	exitGo    bool
+	idx       map[int]int // IndexOf(hash) as the executor reports it
+	idxPan    map[int]bool
+	place     map[string]int // where Stop / cancellation fell (measured on the trace)
+	entered   map[int]bool   // callee entered at least once (under mu)
+	ownerLast map[int]int    // reuse-line: the last call each owner submitted
+	evLow     int
+	stray     int
 }
 
 func (s *sched) stamp() int64 { return atomic.AddInt64(&s.seq, 1) }
@@ -174,7 +181,11 @@ func (s *sched) body(id int) bodyFn {
 
 // find an unconsumed callee event (caller holds s.mu)
 func (s *sched) findEv(kind, c int) int {
-	for i, e := range s.evlog {
+	for s.evLow < len(s.evlog) && s.evUsed[s.evLow] {
+		s.evLow++
+	}
+	for i := s.evLow; i < len(s.evlog); i++ {
+		e := s.evlog[i]
 		if !s.evUsed[i] && e.kind == kind && e.c == c {
 			return i
 		}
@@ -185,7 +196,7 @@ func (s *sched) findEv(kind, c int) int {
 func newSched(p *plan) *sched {
 	s := &sched{p: p, results: map[int]*result{}, wake: make(chan struct{}, 1), gates: map[int]chan struct{}{}, gopen: map[int]bool{},
 		ctxs: map[int]*obsCtx{}, calls: map[int]*pcall{}, evUsed: map[int]bool{}, waiting: map[int]bool{}, gotSeen: map[int]bool{},
-		spawned: map[int]bool{}, idx: map[int]int{}, idxPan: map[int]bool{}, place: map[string]int{}, entered: map[int]bool{}}
+		spawned: map[int]bool{}, idx: map[int]int{}, idxPan: map[int]bool{}, place: map[string]int{}, entered: map[int]bool{}, ownerLast: map[int]int{}}
 	s.m = newModel(p.X, p.Lanes, p.Q)
 	s.ex = newExecutor(p.X, p.Lanes, p.Q)
 	for i := range p.Calls {
@@ -251,6 +262,28 @@ func (s *sched) doSubmit(c int) {
 	if pc == nil || s.spawned[c] {
 		return
 	}
+	var owned *exLine
+	if s.p.Reuse && pc.Owner > 0 {
+		if el, ok := s.ex.(*exLine); ok {
+			owned = el
+			// the owner may touch its CallCtx again only when its previous AsyncCall has returned
+			if prev := s.ownerLast[pc.Owner]; prev != 0 {
+				s.mu.Lock()
+				back := s.results[prev] != nil
+				s.mu.Unlock()
+				if !back {
+					if !(s.m.cancelled[prev] || s.m.answered[prev]) {
+						return // previous call still pending and its caller still waiting: not this owner's turn
+					}
+					if !s.await(func() bool { return s.results[prev] != nil }) {
+						s.hang(6)
+						return
+					}
+				}
+			}
+			s.ownerLast[pc.Owner] = c
+		}
+	}
 	s.spawned[c] = true
 	st := s.stamp()
 	cx := s.ctxs[c]
@@ -258,7 +291,11 @@ func (s *sched) doSubmit(c int) {
 		res := &result{}
 		func() {
 			defer func() { res.pan = recover() }()
-			res.r, res.err = s.ex.Call(cx, c, int(pc.Hash), pc.Form, s.body(c))
+			if owned != nil {
+				res.r, res.err = owned.CallOwned(cx, c, pc.Owner, s.body(c))
+			} else {
+				res.r, res.err = s.ex.Call(cx, c, int(pc.Hash), pc.Form, s.body(c))
+			}
 		}()
 		res.calls = cx.nCalls()
 		res.stamp = s.stamp()
@@ -267,7 +304,7 @@ func (s *sched) doSubmit(c int) {
 		s.mu.Unlock()
 		s.poke()
 	}()
-	ok := s.await(func() bool { return s.results[c] != nil || cx.nCalls() >= 1 || s.findEv(oStart, c) >= 0 })
+	ok := s.await(func() bool { return s.results[c] != nil || cx.nCalls() >= 1 || s.entered[c] })
 	if !ok {
 		s.hang(1)
 		return
@@ -296,11 +333,13 @@ func (s *sched) doSubmit(c int) {
 
 func (s *sched) doRelease(c int) {
 	lane, ok := s.m.laneOf[c]
-	if !ok || s.m.ln(lane).running != c || s.gopen[c] {
+	if !ok || s.m.ln(lane).running != c {
 		return
 	}
-	s.gopen[c] = true
-	close(s.gates[c])
+	if !s.gopen[c] {
+		s.gopen[c] = true
+		close(s.gates[c])
+	}
 	var ei int
 	if !s.await(func() bool { ei = s.findEv(oEnd, c); return ei >= 0 }) {
 		s.hang(2)
@@ -331,11 +370,31 @@ func (s *sched) settle() {
 					// passes over it); ProcChan after Stop: or the goroutine leaves.  Anything else that can be observed at this
 					// point - another queued call of this lane entered first, the goroutine gone with calls queued - is followed
 					// as observed (the case then diverges from the model) instead of waiting for the bound.
-					var ei, ux int
+					var ei, ux, dup int
 					if !s.await(func() bool {
 						ei = s.findEv(oStart, head)
 						ux = -1
+						// a callee entered for a call that is not waiting to be started anywhere (a second execution, a call that was
+						// never accepted): follow it as observed
+						dup = -1
+						for k := s.evLow; k < len(s.evlog) && ei < 0; k++ {
+							ev := s.evlog[k]
+							if s.evUsed[k] || ev.kind != oStart || ev.c == head {
+								continue
+							}
+							if ln2, ok := s.m.laneOf[ev.c]; ok && inQueue(s.m.ln(ln2).queue, ev.c) {
+								continue
+							}
+							dup = k
+							break
+						}
+						if dup >= 0 {
+							return true
+						}
 						for _, d := range l.queue[1:] {
+							if !s.entered[d] {
+								continue
+							}
 							if k := s.findEv(oStart, d); k >= 0 {
 								ux = k
 								break
@@ -347,6 +406,18 @@ func (s *sched) settle() {
 						break
 					}
 					switch {
+					case ei < 0 && dup >= 0:
+						d := s.evlog[dup].c
+						s.evUsed[dup] = true
+						s.diverged = true
+						if ln2, ok := s.m.laneOf[d]; ok && s.m.ln(ln2).running < 0 {
+							s.m.ln(ln2).running = d
+						} else {
+							s.stray++
+							if s.stray > 50 {
+								s.hang(5)
+							}
+						}
 					case ei >= 0:
 						s.evUsed[ei] = true
 						l.queue = l.queue[1:]
@@ -374,9 +445,11 @@ func (s *sched) settle() {
 		if s.hung {
 			return
 		}
-		ids := make([]int, 0, len(s.waiting))
+		ids := make([]int, 0, 8)
 		for c := range s.waiting {
-			ids = append(ids, c)
+			if s.m.answered[c] || (s.p.X == xProc && s.m.closed) {
+				ids = append(ids, c)
+			}
 		}
 		sort.Ints(ids)
 		for _, c := range ids {
